@@ -16,7 +16,7 @@ FIELDS = ["_var", "_forvar", "_modes", "_name", "_version", "_target", "_type", 
 CONTRACTS = {
     "_is_ptype": {"params": ["v"], "reads": [], "modifies": [], "raises": "any", "spec": "spec__is_ptype", "props": ["C15", "C01", "C09"],
                   "families": ["tdm"]},
-    "_value_to_blackbird": {"params": ["v", "tdm"], "defaults": {"tdm": False}, "reads": [], "modifies": [], "raises": "any",
+    "_value_to_blackbird": {"params": ["v", "p_names"], "defaults": {"p_names": "empty_tuple"}, "reads": [], "modifies": [], "raises": "any",
                             "spec": "spec__value_to_blackbird", "props": ["C01", "C09", "C15", "C19"], "families": ["roundtrip", "api_serialize"]},
     "numpy_to_blackbird": {"params": ["A", "var_name"], "reads": [], "modifies": [], "raises": "any", "spec": "spec_numpy_to_blackbird",
                            "props": ["C01", "C09"], "families": ["api_serialize", "roundtrip"]},
@@ -59,22 +59,26 @@ def spec__is_ptype(v):
     return len(v) > 1 and v[0] == "p" and v[1:].isdigit()
 
 
-def spec__value_to_blackbird(v, tdm):
+def spec__value_to_blackbird(v, p_names):
     if isinstance(v, (list, tuple)):
         # lists: every element recursively canonical (NumPy scalars as plain numbers, strings double-quoted, symbols braced)
-        return "[{}]".format(", ".join(_value_to_blackbird(i, tdm) for i in v))
+        return "[{}]".format(", ".join(_value_to_blackbird(i, p_names) for i in v))
     if isinstance(v, str):
-        if tdm and _is_ptype(v):
-            return v                                               # C15: reference to a p-array, unquoted
+        if v in p_names:
+            return v                                               # C15: reference to a DECLARED p-array, unquoted
         return '"{}"'.format(v)
     if isinstance(v, sym.Expr):
-        # every occurrence of every free parameter is written {name}; whole-word alternation, longest name first, so the
-        # result does not depend on other names being prefixes of one another nor on the iteration order of the symbol set
+        # Blackbird text of the expression (A-sympy-str + _BlackbirdExprPrinter: negated powers bracketed, imaginary unit 1j), then every
+        # occurrence of every free parameter written {name}: whole-word alternation, longest name first, so the result does not depend
+        # on other names being prefixes of one another nor on the iteration order of the symbol set
+        text = _BlackbirdExprPrinter().doprint(v)
         names = sorted((str(p) for p in v.free_symbols), key=len, reverse=True)
         if not names:
-            return str(v)
+            return text
         pattern = r"\b({})\b".format("|".join(re.escape(n) for n in names))
-        return re.sub(pattern, r"{\1}", str(v))
+        return re.sub(pattern, r"{\1}", text)
+    if isinstance(getattr(v, "expr", None), sym.Expr):
+        return _BlackbirdExprPrinter().doprint(v.expr)           # register transforms: same printer, nothing to brace
     if isinstance(v, np.generic):
         v = v.item()                                               # NumPy scalars print as the plain Python number
     if isinstance(v, complex):
@@ -236,7 +240,9 @@ def spec_serialize(self):
             else:
                 script.append("{} array {} =\n{}".format(var_type, k, v))
         script.append("")
-    is_tdm = self.programtype["name"] == "tdm"
+    p_names = set()
+    if self.programtype["name"] == "tdm":
+        p_names = {k for k, v in self._var.items() if _is_ptype(k) and isinstance(v, np.ndarray)}
     for op in self.operations:
         if len(op["modes"]) == 1:
             modes = op["modes"][0]
@@ -255,7 +261,7 @@ def spec_serialize(self):
                         script.insert(array_insert + idx, line)      # declarations go after the metadata, in order of first use
                     array_insert += len(bb_array)
                 else:
-                    args.append(_value_to_blackbird(v, is_tdm))
+                    args.append(_value_to_blackbird(v, p_names))
             for k, v in op["kwargs"].items():
                 if isinstance(v, np.ndarray):
                     var_name = "A{}".format(var_count)
@@ -266,7 +272,7 @@ def spec_serialize(self):
                         script.insert(array_insert + idx, line)
                     array_insert += len(bb_array)
                 else:
-                    kwargs.append("{}={}".format(k, _value_to_blackbird(v, is_tdm)))
+                    kwargs.append("{}={}".format(k, _value_to_blackbird(v, p_names)))
             if args and kwargs:
                 arguments = "({}, {})".format(", ".join(args), ", ".join(kwargs))
             elif not kwargs:
